@@ -474,7 +474,10 @@ class LogicalLinkController(object):
                 self.dispatch(rcvd_pdu)
                 send_pdu = self.collect(delay=0.001)
                 if send_pdu is None and symm >= 10:
-                    send_pdu = self.collect(delay=0.05)
+                    # slow down on idle link but stay well below the
+                    # link timeout that we have announced to the peer
+                    idle_time = min(0.05, self.cfg['send-lto'] * 0.5E-3)
+                    send_pdu = self.collect(delay=idle_time)
             else:
                 self.link.DISCONNECT = True
                 self.terminate(reason="local choice")
@@ -537,7 +540,10 @@ class LogicalLinkController(object):
                 self.dispatch(rcvd_pdu)
                 send_pdu = self.collect(delay=0.001)
                 if send_pdu is None and symm >= 10:
-                    send_pdu = self.collect(delay=0.05)
+                    # slow down on idle link but stay well below the
+                    # link timeout that we have announced to the peer
+                    idle_time = min(0.05, self.cfg['send-lto'] * 0.5E-3)
+                    send_pdu = self.collect(delay=idle_time)
                 if send_pdu is None:
                     send_pdu = pdu.Symmetry()
                 rcvd_pdu = self.exchange(send_pdu, recv_timeout)
